@@ -165,6 +165,10 @@ func runC10(x *Ctx) {
 			}
 		}
 		// the stream must be complete and decodable whatever happened
+		if cl := res.W.H.Get("Content-Length"); cl != "" && cl != fmt.Sprint(len(res.W.Body)) && res.W.Fired == 0 {
+			x.Violate("undecodable-after-panic", "%s: the response declares Content-Length %s but %d body bytes were sent: the client does not get a complete body", what, cl, len(res.W.Body))
+			continue
+		}
 		ce := res.W.H.Get("Content-Encoding")
 		if r.PreCE != "" {
 			ce = ""
